@@ -232,3 +232,9 @@ package types
 //@   modifies s.*
 //@   ensures [nil-rejected] err != nil <==> other == nil
 //@   ensures [fields] err == nil ==> StateOf(s) == PbStateOf(other)
+
+// C12 (hashes are stable): the hash and commitment functions are functions of their receiver alone -
+// they keep no package-level state (a shared hasher or cache would make the result depend on what
+// other goroutines hash at the same time).
+// (leafPrefix is a constant byte string that is only read)
+//@ noglobals Header.Hash, Data.Hash, Data.DACommitment allow leafPrefix property C12 C01
